@@ -41,7 +41,17 @@ func (sc *SpecCtx) kindSig(kind string) *types.Signature {
 		tn, mn := kind[:i], kind[i+1:]
 		elem := strings.HasSuffix(mn, "[]")
 		mn = strings.TrimSuffix(mn, "[]")
-		if obj, ok := e.P.TPkg.Scope().Lookup(tn).(*types.TypeName); ok {
+		scope := e.P.TPkg.Scope()
+		if k := strings.LastIndex(tn, "."); k > 0 {
+			// an interface of an imported package: <import path>.<Iface>.<Method>
+			for _, imp := range e.P.TPkg.Imports() {
+				if imp.Path() == tn[:k] {
+					scope, tn = imp.Scope(), tn[k+1:]
+					break
+				}
+			}
+		}
+		if obj, ok := scope.Lookup(tn).(*types.TypeName); ok {
 			switch u := obj.Type().Underlying().(type) {
 			case *types.Interface:
 				for j := 0; j < u.NumMethods(); j++ {
